@@ -178,10 +178,6 @@ def has_icc(psd):
 def oracle(ck, c, keep=None):
     """runs the history, saves, and states the property on the saved bytes.  Returns a dict of
     observations for the correspondence (or None when the case could not be built)."""
-    import numpy as np
-    from psd_tools.api.numpy_io import get_transparency_index, has_transparency
-    from psd_tools.composite import composite
-
     try:
         psd, orig, dirty = make_doc(c)
     except Exception as e:
@@ -189,12 +185,24 @@ def oracle(ck, c, keep=None):
         return None
     if psd is None:
         return None
+    return judge(ck, c, psd, dirty, orig, keep)
+
+
+def judge(ck, c, psd, dirty, orig, keep=None, render_always=False, **tag):
+    """save [psd] once and state the property on the bytes written.  [dirty]: the structure of this
+    PSDImage object was edited at some point since it was created / opened; [orig]: the image-data
+    section the object started from (or of its previous save)."""
+    import numpy as np
+    from psd_tools.api.numpy_io import get_transparency_index, has_transparency
+    from psd_tools.composite import composite
+
     hd = psd._record.header
     if int(psd.color_mode) not in NCOLOR or hd.depth == 1:
         ck.count("out-of-scope colour mode %s" % psd.color_mode.name)
         return None
     info = dict(mode=int(psd.color_mode), channels=hd.channels, depth=hd.depth, w=hd.width, h=hd.height,
                 comp=int(psd._record.image_data.compression), dirty=dirty, clipping=has_clipping(psd), icc=has_icc(psd))
+    info.update(tag)
     ck.count("mode:%d ch:%d depth:%d" % (info["mode"], info["channels"], info["depth"]))
     ck.count("merged-compression:%s" % pc.COMP_NAMES[info["comp"]])
     ck.count("history:" + ("structural" if dirty else "clean"))
@@ -204,7 +212,7 @@ def oracle(ck, c, keep=None):
     except Exception as e:
         obs["old_exc"] = e
     inmem = None
-    if dirty:
+    if dirty or render_always:
         try:
             psd._update_record()
             cc, _, aa = composite(psd, force=True)
@@ -360,6 +368,146 @@ def save_lit(f):
         pc.planes_lit(f[10]), core.zlist(f[11]), pc.coq_bool(f[12]), f[13])
 
 
+# ----------------------------------------------------------------------------- several saves of the same object
+SEQUENCES = {
+    "edit-save-hide-save": ["S:two", "save", "A:hide", "save"],
+    "edit-save-move-save": ["S:two", "save", "A:offset", "save"],
+    "edit-save-opacity-save": ["S:two", "save", "A:opacity", "save"],
+    "edit-save-edit-save": ["S:one", "save", "S:another", "save"],
+    "attr-save-edit-save": ["A:hide", "save", "S:another", "save"],
+    "edit-save-save": ["S:two", "save", "save"],
+    "edit-save-hide-save-show-save": ["S:two", "save", "A:hide", "save", "A:show", "save"],
+    "edit-save-remove-save": ["S:two", "save", "S:remove", "save"],
+}
+
+
+def apply_step(psd, c, step, dm):
+    from psd_tools.api.layers import Group, PixelLayer
+    from psd_tools.constants import Compression
+
+    w, h = c["size"]
+
+    def pix(seed, left, top, lw, lh):
+        im = layer_image(dm, max(1, lw), max(1, lh), (seed + c.get("seed", 0)) % 256, False)
+        return PixelLayer.frompil(im, psd, "px%d" % seed, top, left, Compression.RLE)
+
+    if step == "S:two":
+        psd.append(pix(31, 0, 0, w - 1, h - 1))
+        psd.append(pix(32, 1, 1, w - 2, h - 1))
+    elif step == "S:one":
+        psd.append(pix(33, 1, 0, w - 1, h - 1))
+    elif step == "S:another":
+        psd.append(pix(34, 0, 1, w - 2, h - 1))
+    elif step == "S:remove":
+        psd.remove(psd[-1])
+    elif step == "A:hide":
+        psd[-1].visible = False
+    elif step == "A:show":
+        psd[-1].visible = True
+    elif step == "A:offset":
+        psd[-1].left = psd[-1].left + 1
+        psd[-1].top = psd[-1].top - 1
+    elif step == "A:opacity":
+        psd[-1].opacity = 120
+    else:
+        raise ValueError(step)
+
+
+def oracle_sequence(ck, c, bits=None):
+    """[c] = dict(mode, size, depth, comp, sequence, seed).  The same PSDImage object is edited and
+    saved several times; the property is stated on EVERY file written.  Returns the correspondence
+    case (fields, implementation digests) or None."""
+    from psd_tools import PSDImage
+
+    dm, (w, h), depth, comp = c["mode"], c["size"], c["depth"], c["comp"]
+    steps = SEQUENCES[c["sequence"]]
+    try:
+        psd = PSDImage.new(dm, (w, h), color=40, depth=depth, compression=pc.comp_enum(comp))
+        if steps[0].startswith("A:"):
+            # an attribute edit needs layers that are already there: a saved and reopened layered document
+            apply_step(psd, c, "S:two", dm)
+            blob0 = pc.save_bytes(psd)
+            psd = pc.reopen(blob0)
+        else:
+            blob0 = pc.save_bytes(psd)
+    except Exception as e:
+        ck.count("unbuildable sequence:" + type(e).__name__)
+        return None
+    sec0 = pc.read_image_data_section(blob0)
+    orig = sec0.raw
+    hd = psd._record.header
+    try:
+        old = [list(b) for b in psd._record.image_data.get_data(hd)]
+        consistent = sec0.compression != 0 or len(sec0.raw) - 2 == sum(len(p) for p in old)
+    except Exception:
+        old, consistent = None, False
+    dirty = False
+    lits, outs = [], []
+    k = 0
+    for stp in steps:
+        if stp != "save":
+            try:
+                apply_step(psd, c, stp, dm)
+            except Exception as e:
+                ck.count("unbuildable sequence:" + type(e).__name__)
+                return None
+            if stp.startswith("S:"):
+                dirty = True
+                lits.append((0, [], [], [], False, 0))
+            else:
+                lits.append((1, [], [], [], False, 0))
+            continue
+        keep = {}
+        obs = judge(ck, c, psd, dirty, orig, keep, render_always=True, save_index=k, steps_before=steps[:steps.index("save") + 1] if k == 0 else None)
+        k += 1
+        if obs is None:
+            return None
+        if "blob" in keep:
+            orig = pc.read_image_data_section(keep["blob"]).raw
+        if old is None or "rendered" not in obs:
+            old = None
+            continue
+        info = obs["info"]
+        col, al = obs["rendered"]
+        if bits & 16:
+            straight = enc_planes(col, info["depth"], True)
+            white = enc_planes(col * al + (1.0 - al), info["depth"], True)
+            alpha = enc_planes(al, info["depth"], True)[0]
+        else:
+            straight, white, alpha = enc_planes(col, 8, False), [], enc_planes(al, 8, False)[0]
+        lits.append((2, straight, white, alpha, obs.get("transp", False), obs.get("tindex", 0)))
+        if "save_exc" in obs:
+            outs += [pc.dg([exc_code(obs["save_exc"])]), 0]
+        else:
+            sct = obs["section"]
+            try:
+                p2 = pc.reopen(keep["blob"])
+                d0 = pc.dg([0] + pc.canon_planes([list(b) for b in p2._record.image_data.get_data(p2._record.header)]))
+            except Exception as e:
+                d0 = pc.dg([exc_code(e)])
+            outs += [d0, (len(sct.raw) - 2) if sct.compression == 0 else 0]
+    if old is None or not consistent or has_icc(psd) or int(psd.color_mode) not in NCOLOR:
+        return None
+    fields = (bits, int(psd.color_mode), hd.channels, hd.width, hd.height, hd.depth, comp, old, lits)
+    return fields, outs
+
+
+def session_lit(f):
+    steps = "[" + ";".join("(%d, (%s, %s, %s), (%s, %d))" % (k, pc.planes_lit(s_), pc.planes_lit(w_), core.zlist(a_), pc.coq_bool(t_), i_)
+                           for (k, s_, w_, a_, t_, i_) in f[8]) + "]"
+    return "(mkSS %d %d %d %d %d %d %d %s %s)" % (f[0], f[1], f[2], f[3], f[4], f[5], f[6], pc.planes_lit(f[7]), steps)
+
+
+def gen_sequences(ck):
+    thorough = ck.tier == "thorough"
+    for dm in DOCMODES:
+        for comp in range(4):
+            for name in SEQUENCES:
+                for size in ([(6, 4)] + ([(5, 3), (128, 3)] if thorough else [])):
+                    for _rep in range(2 if thorough else 1):
+                        yield dict(mode=dm, size=list(size), depth=8, comp=comp, sequence=name, seed=ck.rng.randrange(256))
+
+
 # ----------------------------------------------------------------------------- generators
 def gen_cases(ck):
     thorough = ck.tier == "thorough"
@@ -436,7 +584,10 @@ def _failures_of(c):
     probe.count = lambda *a, **k: None
     probe.fail = lambda kind, inp, observed, expected, **extra: probe.failures.append(
         dict(kind=kind, input=inp, observed=observed, expected=expected, **extra))
-    oracle(probe, c)
+    if "sequence" in c:
+        oracle_sequence(probe, c, pc.cfg_bits(st()))
+    else:
+        oracle(probe, c)
     return probe.failures
 
 
@@ -452,6 +603,8 @@ def run():
                "x sizes incl. 1x1, 128 wide, one row x histories that touch structure (append opaque / partially transparent / two layers, "
                "append+remove, group, group with layer, move_down) or do not (nothing, rename, hide, opacity, offset, blend mode on a saved and "
                "reopened layered document); fixtures x {rotate, delete top, add group, add layer | nothing, rename, hide, opacity}; "
+               "several saves of the SAME object: [edit, save, hide/move/opacity, save], [edit, save, edit, save], [attribute edit, save, edit, save], "
+               "[edit, save, save], ... with the property stated on every file written; "
                "non-trivial = distinct (mode, channels, depth, compression, history)")
     pc.drop_assumed_fixed(ck, st())
     bits = pc.cfg_bits(st())
@@ -477,6 +630,19 @@ def run():
                 corr_in.append(c)
     ck.sample({"case": cases[len(cases) // 2]})
     ck.sample({"case": cases[-3]})
+    seqs = list(gen_sequences(ck))
+    scorr, scorr_in = [], []
+    for c in seqs:
+        r = oracle_sequence(ck, c, bits)
+        ck.count("sequence:" + c["sequence"])
+        ck.nontriv(("seq", c["mode"], c["comp"], c["sequence"], tuple(c["size"])))
+        if r is not None:
+            scorr.append(r)
+            scorr_in.append(c)
+    ck.sample({"sequence_case": seqs[len(seqs) // 3], "steps": SEQUENCES[seqs[len(seqs) // 3]["sequence"]]})
+    bad = ck.correspond("session", "session_digests", IMPORTS, scorr, session_lit, chunk=40)
+    for k in bad[:5]:
+        ck.notes.append("session model/implementation differ on %r" % (scorr_in[k],))
     bad = ck.correspond("save", "save_digests", IMPORTS, corr, save_lit, chunk=60)
     for k in bad[:5]:
         ck.notes.append("save model/implementation differ on %r" % (corr_in[k],))
